@@ -7,6 +7,8 @@ SN = "xstate_statemachine.models:StateNode."
 
 
 def register(w):
+    register_resolver(w)
+
     @w.contract(BI + "_get_ancestors", props=["C01", "C03"])
     def _(c):
         c.param("node", Node).returns(SetSort(Node))
@@ -81,3 +83,21 @@ def register(w):
             "branch == None or anc(target_state, branch)",
             f"implies({REGION}, branch != None and anc(branch, domain) and branch != domain)",
         ], decreases="ite(branch != None, branch.depth + 1, 0)")
+
+
+def register_resolver(w):
+    RS = "xstate_statemachine.resolver:"
+
+    @w.contract(RS + "_find_descendant", props=["C18"])
+    def _(c):
+        # the path walk every target spelling ends in (absolute "#m.a.b", relative ".b", plain "a.b")
+        c.param("start_node", Node).param("path", ListSort(STR)).returns(Node)
+        c.req("start_node != None")
+        c.ens("result != None and anc(result, start_node)", label="result-is-a-descendant-or-the-start")
+        c.ens("result.depth == start_node.depth + len(path)", label="one-level-per-path-segment")
+        c.ens("implies(len(path) == 0, result == start_node)", label="empty-path-is-the-start")
+        c.ens("implies(len(path) == 1, path[0] in start_node.states and result == start_node.states[path[0]])", label="single-segment-is-the-child-of-that-key")
+        c.may_raise("StateNotFoundError")
+        c.loop(0, inv=["current != None and anc(current, start_node)", "current.depth == start_node.depth + _i",
+                       "implies(_i == 0, current == start_node)",
+                       "implies(_i == 1 and len(path) >= 1, path[0] in start_node.states and current == start_node.states[path[0]])"])
